@@ -71,9 +71,9 @@ CHECKS = {
   engine="E2-mir2smt + E1a-kani-ordinals",
   technique="differential symbolic execution: the MIR of the real Runestone::decipher and the MIR of a specification reference are executed path-wise on the same symbolic integer sequence and compared by SMT queries; LEB128 payload decoding by Kani/CBMC; native replay",
   category="model_checking",
-  text="Solver verdict, for every sequence of up to 4 (quick) / 6 (thorough) integers of any u128 value and 1-3 outputs, that message parsing and field decoding yield exactly the runestone or the cenotaph (flaw order, kept etched name and mint, edict delta decoding and output bounds, flag/tag handling, pointer and supply rules) that a reference written from the specification yields, and never panic. Payload bytes -> integers is decided by Kani for payloads <= 6 bytes. Round trip: for every well-formed runestone of the checked shapes (<= 2 edicts, any field values), decipher(encipher(r)) is r with edicts stably ordered by rune id.",
+  text="Solver verdict, for every sequence of up to 4 (quick) / 6 (thorough) integers of any u128 value and 1-3 outputs, that message parsing and field decoding yield exactly the runestone or the cenotaph (flaw order, kept etched name and mint, edict delta decoding and output bounds, flag/tag handling, pointer and supply rules) that a reference written from the specification yields, and never panic. Payload bytes -> integers is decided by Kani for payloads <= 6 bytes. Round trip: for every well-formed runestone of the checked shapes (<= 3 edicts, any field values), decipher(encipher(r)) is r with edicts stably ordered by rune id.",
   design_ref="DESIGN.md §3 C25",
-  note="Script -> payload assembly relies on bitcoin's Instructions iterator (decided only for 3-byte scripts, thorough tier); the encipher->decipher round trip is decided at the integer level for fixed shapes with <= 2 edicts (3+ edicts, multi-push payloads not covered); std containers are modelled."),
+  note="Script -> payload assembly relies on bitcoin's Instructions iterator (decided only for 3-byte scripts, thorough tier); the encipher->decipher round trip is decided at the integer level for fixed shapes with <= 3 edicts (more edicts, multi-push payloads not covered); std containers are modelled."),
  "C01": dict(
   engine="E2-mir2smt",
   technique="path-wise symbolic execution of the MIR of Updater::index_transaction_sats (function text extracted from src/index/updater.rs at run time into the lift crate) with std iterators/Vec modelled; FIFO refinement property posed to z3 per path",
